@@ -23,6 +23,11 @@ rule("C07.c", "VAR-lockstep: within a function c, l and u grow under the same gu
 rule("C07.d", "ROW-lockstep: within a function the rows of A, b and the letters of cType grow under the same guard contexts", floor=8,
      props=["C07", "C03"])
 
+rule("C20.g", "order book: the rows of the orders are collected by init-or-append - the collected frame is (re)initialised only "
+              "while it is still empty, whatever the current order contributes", floor=1, props=["C20", "C07"])
+rule("C07.r", "init-or-append inside a loop: an accumulator defined before the loop is re-initialised only under a condition that "
+              "implies it is still empty", floor=0)
+
 VAR = ("c", "l", "u")
 ROW = ("A", "b", "cType")
 
@@ -95,7 +100,107 @@ def _costs_only_true(c):
     return False
 
 
-@analysis("lockstep", ["C07.c", "C07.d"])
+def _acc_grows(st, name):
+    if isinstance(st, ast.AugAssign) and isinstance(st.target, ast.Name) and st.target.id == name:
+        return True
+    if isinstance(st, ast.Assign) and len(st.targets) == 1 and isinstance(st.targets[0], ast.Name) and st.targets[0].id == name:
+        return name in au.names_in(st.value)
+    if isinstance(st, ast.Expr) and isinstance(st.value, ast.Call) and au.method_name(st.value) in ("append", "extend") \
+            and au.base_name(st.value.func) == name:
+        return True
+    return False
+
+
+def _implies_empty(test, name, counters):
+    """Does `test` being true imply that accumulator `name` is still empty (or that this is the first iteration)?"""
+    t = test
+    if isinstance(t, ast.BoolOp) and isinstance(t.op, ast.And):
+        return any(_implies_empty(v, name, counters) for v in t.values)
+    if isinstance(t, ast.BoolOp) and isinstance(t.op, ast.Or):
+        return all(_implies_empty(v, name, counters) for v in t.values)
+    if isinstance(t, ast.UnaryOp) and isinstance(t.op, ast.Not):
+        o = t.operand
+        if isinstance(o, ast.Name) and o.id == name:
+            return True                                            # not acc
+        if isinstance(o, ast.Call) and isinstance(o.func, ast.Name) and o.func.id == "len" and o.args and au.U(o.args[0]) == name:
+            return True                                            # not len(acc)
+        return False
+    if isinstance(t, ast.Attribute) and t.attr == "empty" and au.U(t.value) == name:
+        return True
+    nt = au.none_test(t)
+    if nt is not None:
+        return isinstance(nt[0], ast.Name) and nt[0].id == name and nt[1]
+    if isinstance(t, ast.Compare) and len(t.ops) == 1:
+        l, o, r = t.left, t.ops[0], t.comparators[0]
+
+        def is_size(e):
+            if isinstance(e, ast.Call) and isinstance(e.func, ast.Name) and e.func.id == "len" and e.args and au.U(e.args[0]) == name:
+                return True
+            return isinstance(e, ast.Subscript) and isinstance(e.value, ast.Attribute) and e.value.attr == "shape" and au.U(e.value.value) == name \
+                and au.const_num(e.slice) == 0
+        for a, b, op in ((l, r, o), (r, l, {ast.Lt: ast.Gt(), ast.Gt: ast.Lt(), ast.LtE: ast.GtE(), ast.GtE: ast.LtE()}.get(type(o), o))):
+            if is_size(a) and au.const_num(b) is not None:
+                k = au.const_num(b)
+                if (isinstance(op, ast.Eq) and k == 0) or (isinstance(op, ast.Lt) and k == 1) or (isinstance(op, ast.LtE) and k == 0):
+                    return True
+            if isinstance(a, ast.Name) and a.id in counters and isinstance(op, ast.Eq) and au.const_num(b) == counters[a.id]:
+                return True                                        # first iteration
+    return False
+
+
+def _accumulators(ctx):
+    """C20.g / C07.r"""
+    p = ctx.p
+    n = 0
+    for fn in sorted(p.all_functions(), key=lambda f: f.qualname):
+        if fn.parent is not None:
+            continue
+        rid = "C20.g" if (fn.cls is not None and fn.cls.name == "OrderBook") else "C07.r"
+        for lp in [s for s in au.walk_stmts(fn.body) if isinstance(s, (ast.For, ast.While))]:
+            counters = {}
+            if isinstance(lp, ast.For) and isinstance(lp.iter, ast.Call) and isinstance(lp.iter.func, ast.Name):
+                if lp.iter.func.id == "enumerate" and isinstance(lp.target, ast.Tuple) and isinstance(lp.target.elts[0], ast.Name):
+                    st0 = au.arg_or_kw(lp.iter, 1, "start")
+                    counters[lp.target.elts[0].id] = au.const_num(st0) if st0 is not None else 0
+                elif lp.iter.func.id == "range" and isinstance(lp.target, ast.Name):
+                    counters[lp.target.id] = au.const_num(lp.iter.args[0]) if len(lp.iter.args) >= 2 else 0
+            before = {t for s in au.walk_stmts(fn.body) if s.lineno < lp.lineno and isinstance(s, ast.Assign) for t0 in s.targets
+                      for t in au.target_names(t0)}
+            for iff in [s for s in au.walk_stmts(lp.body) if isinstance(s, ast.If) and s.orelse]:
+                # the innermost loop around the `if` is lp
+                inner = next((a for a in p.ancestors(iff) if isinstance(a, (ast.For, ast.While))), None)
+                if inner is not lp:
+                    continue
+                for init_arm, grow_arm, positive in ((iff.body, iff.orelse, True), (iff.orelse, iff.body, False)):
+                    for s in init_arm:
+                        if not (isinstance(s, ast.Assign) and len(s.targets) == 1 and isinstance(s.targets[0], ast.Name)):
+                            continue
+                        nm = s.targets[0].id
+                        if nm in au.names_in(s.value) or nm not in before or not any(_acc_grows(x, nm) for x in grow_arm):
+                            continue
+                        n += 1
+                        test = iff.test if positive else ast.UnaryOp(op=ast.Not(), operand=iff.test)
+                        ok = _implies_empty(test, nm, counters) if positive else False
+                        ctx.ob(rid, fn, "%s is initialised or appended to" % ("the collected mapping" if rid == "C20.g" else "an accumulator"), ok,
+                               "inside the loop `%s = %s` replaces what has been collected so far whenever `%s` holds, and that condition "
+                               "does not imply that nothing has been collected yet: the contributions of earlier iterations are lost "
+                               "(their variables keep costs and bounds but lose their mapping rows / restrictions)" % (
+                                   nm, au.short(s.value, 40), au.short(iff.test, 80)), node=iff,
+                               ok_detail="re-initialised only while empty (%s)" % au.short(iff.test, 60))
+    # anchor: the order book collects its rows in a loop; if it never re-initialises the collection there is nothing to judge
+    ob = p.fn_opt("OrderBook.setup_optim_problem")
+    ctx.require(ob is not None, "OrderBook.setup_optim_problem vanished")
+    if not any(o.rule == "C20.g" for o in ctx.obs):
+        roles = local_roles(ob)
+        grows = [s for lp in au.walk_stmts(ob.body) if isinstance(lp, (ast.For, ast.While)) for s in au.walk_stmts(lp.body)
+                 if isinstance(s, (ast.Assign, ast.AugAssign, ast.Expr)) and any(_acc_grows(s, nm) for nm, r in roles.items() if r == "mapping")]
+        ctx.ob("C20.g", ob, "the collected mapping is only ever appended to", True if grows else None,
+               "the loop collecting the mapping rows of the orders was not recognised", node=(grows[0] if grows else ob.node),
+               ok_detail="no re-initialisation inside the loop")
+    return n
+
+
+@analysis("lockstep", ["C07.c", "C07.d", "C20.g", "C07.r"])
 def run(ctx):
     p = ctx.p
     n_var = n_row = 0
@@ -152,5 +257,6 @@ def run(ctx):
                 first = sites[(o, present[0])][0]
                 ctx.ob(rid, fn, "%s%s grow together" % ((o + ": ") if o else "", ", ".join(present)), ok, detail, node=first,
                        ok_detail="%d growth event(s) each" % len(ref))
+    _accumulators(ctx)
     ctx.require(n_var >= 4, "fewer than 4 functions grow at least two of c / l / u")
     ctx.require(n_row >= 6, "fewer than 6 functions grow at least two of A / b / cType")
